@@ -94,6 +94,22 @@ class Program:
             return self.enum_discr[(ty, var)]
         return vs.index(var)
 
+    def bare_variant(self, name):
+        """a unit variant printed without its enum (rustc trims unique paths): -> (enum, discriminant) or None"""
+        if name in ORDERING:
+            return 'Ordering', ORDERING[name]
+        if not hasattr(self, '_bare'):
+            self._bare = {}
+            for en, vs in self.enums.items():
+                if en == '__dups__':
+                    continue
+                for v in vs:
+                    self._bare.setdefault(v, []).append(en)
+        ens = self._bare.get(name)
+        if ens and len(ens) == 1:
+            return ens[0], self.variant_index(ens[0], name)
+        return None
+
     def variant_name(self, ty, idx):
         if ty == 'Ordering':
             return {-1: 'Less', 0: 'Equal', 1: 'Greater'}[idx]
